@@ -12,7 +12,11 @@ import (
 )
 
 func forkName(c forkh.Cfg) string {
-	s := fmt.Sprintf("fork.%s par=%d input=%v incap=%d mode=%s mask=%b stop=%d", c.Stage, c.Par, c.Input, c.InCap, c.Mode, c.Mask, c.Stop)
+	in := fmt.Sprint(c.Input)
+	if len(c.Input) > 40 {
+		in = fmt.Sprintf("[%d elements: %v ...]", len(c.Input), c.Input[:6])
+	}
+	s := fmt.Sprintf("fork.%s par=%d input=%s incap=%d mode=%s mask=%b stop=%d", c.Stage, c.Par, in, c.InCap, c.Mode, c.Mask, c.Stop)
 	if c.Stage == "partition" {
 		s += fmt.Sprintf("/%d", c.Stop2)
 	}
